@@ -70,7 +70,7 @@ def pos_cases(draw):
         hdr = {"alg": alg, "enc": enc, **hdr}
         if alg in rjwe.PBES2:
             hdr["p2c"] = 16
-    keymode = draw(st.sampled_from(["key", "key", "keyset", "keyset_kid", "callable", "decode-with-single-key-set", "callable-nested"]))
+    keymode = draw(st.sampled_from(["key", "key", "keyset", "keyset_kid", "callable", "decode-with-single-key-set", "callable-nested", "keyset_single"]))
     if keymode == "keyset_kid":
         hdr["kid"] = "the-key"
     return {"kind": "pos", "claims": claims, "dt": dt, "transport": transport, "header": hdr, "key": gk.key_to_record(key),
@@ -117,8 +117,8 @@ def run_pos(case) -> dict:
         claims[n] = dt
         expected[n] = calendar.timegm(dt.utctimetuple())
     refkey = gk.key_from_record(case["key"])
-    priv = jkey(refkey, case["form"], True, {"kid": "the-key"} if case["keymode"] in ("keyset", "keyset_kid") else None)
-    pub = priv if refkey["kty"] == "oct" else jkey(rk.public_of(refkey), case["form"], False, {"kid": "the-key"} if case["keymode"] in ("keyset", "keyset_kid") else None)
+    priv = jkey(refkey, case["form"], True, {"kid": "the-key"} if case["keymode"] in ("keyset", "keyset_kid", "keyset_single") else None)
+    pub = priv if refkey["kty"] == "oct" else jkey(rk.public_of(refkey), case["form"], False, {"kid": "the-key"} if case["keymode"] in ("keyset", "keyset_kid", "keyset_single") else None)
     decoy = jkey({"kty": "oct", "k": b"0123456789abcdef" * 2}, "dict", True, {"kid": "decoy"})
     if refkey["kty"] == "oct":
         decoy = jkey(gk.okp_from_seed("Ed25519", bytes(32)), "dict", True, {"kid": "decoy"})
@@ -143,6 +143,8 @@ def run_pos(case) -> dict:
                         raise AssertionError("nested decode wrong")
                 return k
             return resolve
+        if case["keymode"] == "keyset_single":
+            return KeySet([k])       # a set of one key is still a key set: the kid of the key it picks is recorded
         return KeySet([k, decoy])
     allow = case.get("allow", "registry" if jwe_t else "algorithms")
     if jwe_t:
@@ -173,12 +175,12 @@ def run_pos(case) -> dict:
     want_h = {"typ": "JWT", **before}
     got_h = dict(tok.header)
     extra = set(got_h) - set(want_h)
-    allowed_extra = {"kid"} if case["keymode"] == "keyset" else set()
+    allowed_extra = {"kid"} if case["keymode"] in ("keyset", "keyset_single") else set()
     if jwe_t:
         allowed_extra |= {"epk", "iv", "tag", "p2s", "p2c"}
     if any(got_h.get(k) != v for k, v in want_h.items()) or not extra <= allowed_extra:
         f[f"C09:header-differs:{tag}"] = f"decoded header {got_h!r}; expected {want_h!r} (+{sorted(allowed_extra)})"
-    if case["keymode"] == "keyset" and got_h.get("kid") != "the-key":
+    if case["keymode"] in ("keyset", "keyset_single") and got_h.get("kid") != "the-key":
         f[f"C09:kid-of-chosen-key-missing:{tag}"] = f"decoded header {got_h!r} lacks kid 'the-key'"
     return f
 
